@@ -224,7 +224,18 @@ func (p *Prog) fieldTypes(fv *types.Var) []types.Type {
 			add(tv.Type)
 			return
 		}
-		// interface-typed expression: a parameter of the enclosing function?
+		// interface-typed expression: another field (the value is handed on from one holder to the next)?
+		if sel, isSel := e.(*ast.SelectorExpr); isSel {
+			if ov, isV := info.Uses[sel.Sel].(*types.Var); isV && ov.IsField() && ov != fv {
+				if ts := p.fieldTypes(ov); len(ts) > 0 {
+					for _, t := range ts {
+						add(t)
+					}
+					return
+				}
+			}
+		}
+		// a parameter of the enclosing function?
 		if id, isId := e.(*ast.Ident); isId && depth < 4 {
 			o := info.Uses[id]
 			idx := -1
